@@ -373,7 +373,7 @@ def body_deltat(case):
 # ------------------------------------------------------------------ generated instants
 
 INSTANT_FORMS = ["ctor", "tuple", "set", "fractional_day", "set_self", "from_epoch", "datetime",
-                 "set_other"]
+                 "set_other", "check_input_fields", "check_input_list", "check_input_date_object"]
 
 
 def _build_instant(y, m, d, sod, form, kw):
@@ -398,6 +398,19 @@ def _build_instant(y, m, d, sod, form, kw):
         if int(dd) != d:
             dd = float(d)
         return Epoch(y, m, dd, **kw), (F(dd) - d) * 86400
+    if form in ("check_input_fields", "check_input_list"):
+        # Epoch.check_input_date(): the public gate through which the functions of Coordinates
+        # take their date arguments; it hands the keywords on to the constructor
+        dd = d + sod / 86400.0
+        if int(dd) != d:
+            dd = float(d)
+        ent = (F(dd) - d) * 86400
+        if form == "check_input_fields":
+            return Epoch.check_input_date(y, m, dd, **kw), ent
+        return Epoch.check_input_date([y, m, dd], **kw), ent
+    if form == "check_input_date_object":
+        import datetime
+        return Epoch.check_input_date(datetime.date(y, m, d), **kw), F(0)
     if form == "datetime":
         import datetime
         us = int(round((s - int(s)) * 1e6))
@@ -430,6 +443,8 @@ def body_instant(case):
     if ov is not None and case.get("both"):
         kw["utc"] = True
     a, entered = _build_instant(y, m, d, sod, form, kw)
+    if form == "check_input_date_object":
+        sod = 0.0               # a date object carries no time of day
     b, _ = _build_instant(y, m, d, sod, form if form not in ("set_self", "set_other", "from_epoch")
                           else "ctor", {})
     what = "the civil instant %d-%02d-%02d + %r s entered as %s with %s" % (
